@@ -54,6 +54,7 @@ Plan generate_plan(const std::string &prop, const std::string &tier, uint64_t ba
     if (wn == "qlog" && p.mode != "threads") p.mode = "lockbal";
     std::unique_ptr<World> w(make_world(wn));
     w->gen_cfg(r, prop, p.mode, p.cfg);
+    p.cfg.set("kalign", r.chance(1, 3) ? r.range(1, 3) : 0);      // caller buffers start at an address that is 1..3 bytes off a word boundary
     if (tier == "thorough" && p.mode == "seq" && r.chance(1, 3)) p.cfg.set("nops", p.cfg.get("nops") * 3);
     w->init(p.cfg);
     GenState g;
@@ -383,6 +384,7 @@ void execute_plan(const Plan &p, RunOut &out, bool verbose, const std::string &s
     std::unique_ptr<World> w(make_world(p.cfg.world));
     if (!w) { fprintf(stderr, "qsim: unknown world %s\n", p.cfg.world.c_str()); exit(2); }
     w->init(p.cfg);
+    g_caller_misalign = (int)p.cfg.get("kalign");
     sim_clock_reset();
     if (p.mode == "seq") {
         Ctx x; x.plan = &p; set_oracles(x, p.prop); x.verbose = verbose; x.scratch = scratch;
